@@ -102,7 +102,7 @@ def build_facts(cfg='dev', repo=None, quiet=True):
             raise RuntimeError('E0: `%s` failed in %s (exit %s); the tree does not compile or the driver broke' % (' '.join(cmd), repo, p.returncode))
         # keep the work dir small: drop fact files of other digests for this cfg
         for old in glob.glob(os.path.join(WORK, 'facts-%s-*.jsonl' % cfg)):
-            if old != out:
+            if old != out and time.time() - os.path.getmtime(old) > 900:
                 try:
                     os.remove(old)
                 except OSError:
